@@ -100,6 +100,9 @@ def check_C13(tier, seed, res, replay=None):
         return do_replay(res, rd, replay, "TraceTimbuk.tla")
     rng = random.Random(seed)
     cases = enum_timbuk("rt", sample=(0.5 if tier == "thorough" else 0.06), rng=rng)
+    for c in cases:
+        if rng.random() < 0.3:
+            c["forked"] = True      # additionally load into an explicit automaton whose alphabet is a COPY of one holding other symbols
     bad = enum_timbuk("bad")
     cases += bad
     valid_texts = [c["text"] for c in cases if c["mode"] == "rt"][:400] or ["Ops a:0\nAutomaton A\nStates q\nFinal States q\nTransitions\na -> q\n"]
